@@ -1,9 +1,10 @@
 (* Extraction of the MTZ-family model. ExtrOcamlBasic only: Z/positive/N stay Coq datatypes. *)
 From Coq Require Extraction ExtrOcamlBasic.
-From GV Require Import Base.Str Mtz.Fmt Mtz.Header Mtz.Data Mtz.RowBuf.
+From GV Require Import Base.Str Mtz.Fmt Mtz.Header Mtz.Data Mtz.RowBuf Mtz.SpecDefs Mtz.Spec_gen Mtz.Recipe.
 Extraction Blacklist String List Nat.
 Extraction "mtz.ml"
   emit_headers emit_headers_orig parse_main parse_record p0 parse_history_line parse_mtzhist parse_bh
   parse_btitle parse_btitle_orig key4 key3
   first20 read_first read_prefix file_prefix file_prefix_swapped
-  loop_body put_item put_item_orig body_spec.
+  loop_body put_item put_item_orig body_spec
+  prepare_recipe shown m2c_merged_raw m2c_unmerged_raw.
